@@ -39,7 +39,7 @@ Solvent(q, M) == MonPools(q, M) /\ MonCollateral(q, M) /\ MonVault(q, M)
      R5  claim_fees_from_market empties the claimable fee of that side and pays exactly it out
      R6  market_transfer_in adds exactly the amount to vault and balance, pools unchanged *)
 R1(e) == ~e.ok => e.post = e.pre
-R2(e, M) == \A t \in DOMAIN e.pre.vault :
+R2(e, M) == e.op = "donate" \/ \A t \in DOMAIN e.pre.vault :
               e.post.vault[t] - e.pre.vault[t] = Attributed(e.post, M, t) - Attributed(e.pre, M, t)
 R3(e, M) == \A m \in DOMAIN M : (\A k \in DOMAIN e.touched : e.touched[k] # m) => MarketView(e.post, m) = MarketView(e.pre, m)
 IsCreateOrClose(op) == op \in {"create_deposit", "close_deposit", "create_withdrawal", "close_withdrawal",
